@@ -64,10 +64,17 @@ Proof. vm_compute. repeat split. Qed.
 (* ---- the added hypotheses are necessary ---- *)
 Require Import Cirbo.Proofs.ConeFacts.
 
-(* arity: eval_pattern ignores the third operand of an AND gate - on one row (n = 0) with
-   operand bits 1, 1, 0 it answers 1 while the gate's denotation is false *)
-Lemma c04_cex_ternary_and :
-  eval_pattern (max_pattern 0) AND [1; 1; 0]%N = Ok 1%N /\
+(* arity: eval_pattern ignores a surplus operand of a comparison gate; such a gate is
+   ill-formed in cirbo (its operator raises TypeError), the denotation is undefined *)
+Lemma c04_cex_surplus_operand :
+  eval_pattern (max_pattern 0) GEQ [1; 1; 0]%N = Ok 1%N /\
+  den GEQ (map (fun p => N.testbit p 0) [1; 1; 0]%N) = None.
+Proof. split; reflexivity. Qed.
+
+(* the n-ary types are folded over all operands (repair D25: the unrepaired code read only
+   the first two operands and answered 1 here) *)
+Lemma c04_ternary_and :
+  eval_pattern (max_pattern 0) AND [1; 1; 0]%N = Ok 0%N /\
   den AND (map (fun p => N.testbit p 0) [1; 1; 0]%N) = Some false.
 Proof. split; reflexivity. Qed.
 
@@ -83,3 +90,21 @@ Proof.
   split; [reflexivity|]. split; [vm_compute; reflexivity|]. split; [reflexivity|].
   apply (cone_eval_sound _ _ 5). vm_compute. reflexivity.
 Qed.
+
+(* the all-outputs-trivial branch: o = a OR (a AND b) has the pattern of the leaf a and is
+   merged into it *)
+Definition c04_merge_old : circuit :=
+  mkCircuit ["a"; "b"] ["z"; "o"]
+    [("a", mkGate INPUT []); ("b", mkGate INPUT []); ("x", mkGate AND ["a"; "b"]);
+     ("o", mkGate OR ["a"; "x"]); ("z", mkGate NOT ["o"])]
+    [("a", ["x"; "o"]); ("b", ["x"]); ("x", ["o"]); ("o", ["z"])] [].
+Definition c04_merge_new : circuit :=
+  mkCircuit ["a"; "b"] ["z"; "a"]
+    [("a", mkGate INPUT []); ("b", mkGate INPUT []); ("x", mkGate AND ["a"; "b"]);
+     ("z", mkGate NOT ["a"])]
+    [("a", ["x"; "z"]); ("b", ["x"])] [].
+
+Lemma c04_merge_accepted :
+  check_merge c04_merge_old c04_merge_new ["a"; "b"] "o" "a" None = true /\
+  check_merge c04_merge_old c04_merge_new ["a"; "b"] "o" "b" None = false.
+Proof. vm_compute. split; reflexivity. Qed.
